@@ -204,6 +204,9 @@ func providerEffectScan(c *Ctx) *types.Named {
 					if name == "" || strings.HasPrefix(name, "builtin:") || (callee != nil && c.P.inModule(callee)) {
 						continue
 					}
+					if callee != nil && stdInlined(callee) {
+						continue // slices.Contains / Index…: read-only loops, simulated like module code on the kernel paths
+					}
 					if x.Common().IsInvoke() {
 						// an interface only module types can implement: its implementations are in the cone
 						if is, sealed := c.P.moduleIface(x.Common().Value.Type()); is && sealed {
@@ -540,8 +543,14 @@ func inputsUnmodified(c *Ctx, rule string, spT *types.Named) {
 	nRoots, nEff := 0, 0
 	observers := map[string]bool{"(*etree.Document).Root": true, "(*etree.Element).Parent": true, "(*etree.Element).SelectElement": true, "(*etree.Element).SelectElements": true,
 		"(*etree.Element).ChildElements": true, "(*etree.Element).FindElement": true, "(*etree.Element).FindElements": true, "(*etree.Element).SelectAttr": true}
+	// the heavy inbound helpers are kernels of their own (as in C09); a pointer handed to one of them is checked against
+	// that helper's write-effect summary at the call
+	inline := []string{"*", "-(*SAMLServiceProvider).SigningContext"}
+	for _, n := range sortedKeys(c09SubKernels) {
+		inline = append(inline, "-"+n)
+	}
 	for _, f := range roots {
-		res := c.kernelFn(f, "*", "-(*SAMLServiceProvider).SigningContext")
+		res := c.kernelFn(f, inline...)
 		if res == nil {
 			continue
 		}
@@ -584,7 +593,8 @@ func inputsUnmodified(c *Ctx, rule string, spT *types.Named) {
 			case *IterElemV:
 				return derived(x.Root, d+1)
 			case *MapElemV:
-				return mayPointTo(x.Type()) && derived(x.M.Coll, d+1)
+				// element of a comprehension: whatever the per-element expression denotes
+				return mayPointTo(x.Type()) && derived(x.M.Elem, d+1)
 			case *CallV:
 				if observers[shortName(x.Callee)] && len(x.Args) > 0 {
 					return derived(x.Args[0], d+1)
@@ -607,6 +617,17 @@ func inputsUnmodified(c *Ctx, rule string, spT *types.Named) {
 						c.bad(rule, fname, "map update "+ap(e.X), c.P.InstrPos(e.Instr), "a public operation updates a map reachable from its argument")
 					}
 				case EvCall:
+					if e.CalleeFn != nil && c.P.inModule(e.CalleeFn) && e.CalleeFn.Blocks != nil {
+						// summarised module callee: does it write through the parameter that receives the input?
+						eff := moduleEffect(c.P, e.CalleeFn, map[*ssa.Function]bool{})
+						for i, a := range e.Args {
+							if a != nil && eff.params[i] && mayPointTo(a.Type()) && derived(a, 0) {
+								nEff++
+								c.bad(rule, fname, "callee "+shortFn(e.CalleeFn)+" writes through "+ap(a), c.P.InstrPos(e.Instr), "a public operation hands its argument to "+shortFn(e.CalleeFn)+", which writes through it")
+							}
+						}
+						continue
+					}
 					ct := lookupContract(e.Callee)
 					if ct == nil {
 						continue
@@ -704,7 +725,8 @@ func providerUnmodifiedPaths(c *Ctx, rule string, spT *types.Named) {
 			case *IterElemV:
 				return derived(x.Root, d+1)
 			case *MapElemV:
-				return mayPointTo(x.Type()) && derived(x.M.Coll, d+1)
+				// element of a comprehension: whatever the per-element expression denotes
+				return mayPointTo(x.Type()) && derived(x.M.Elem, d+1)
 			case *AppendV:
 				return derived(x.S, d+1)
 			case *CallV:
